@@ -71,8 +71,13 @@ func (r *Replayer) replayFile(path string, isLastFile bool, process func(record 
 			return nil
 		}
 
-		// a crash can cut the last record of the newest file short, which marks the end of the log
+		// a crash can cut the last record of the newest file short, which marks the end of the log. Decompressors
+		// report a damaged stream in the same way, so the file has to end here for it to count: a record that can
+		// still be read behind this one means damage in the middle of the file, which is reported
 		if isLastFile && errors.Is(err, io.ErrUnexpectedEOF) {
+			if _, nextErr := reader.ReadNext(); nextErr == nil {
+				return fmt.Errorf("error while reading WAL records under '%s' (more records follow): %w", path, err)
+			}
 			return nil
 		}
 
